@@ -233,3 +233,47 @@ def _r_c02_gone(f):
     out = Shaper(raw_graph=nt, all_classes_mode=True,
                  namespaces_to_ignore=["http://www.w3.org/1999/02/22-rdf-syntax-ns#"]).shex_graph(string_output=True)
     return "example.org/q" in out and "example.org/p" not in out
+
+
+# ------------------------------------------------------------------ C05 / C13: custom shapes namespace
+@trigger("custom_shapes_ns_references")
+def _t_custom_ns(f, obs):
+    """with a non-default shapes_namespace, shape references still use the default namespace, so they
+    no longer name the shapes of the document (and are not cleaned up with removed shapes)"""
+    if obs.get("kind") == "shapes_ns_pair":
+        custom = obs["cfg"]["shapes_ns"] != SHAPES_NS_DEFAULT or obs["cfg2"]["shapes_ns"] != SHAPES_NS_DEFAULT
+        refs = any(t.startswith('%') for p in (obs["parsed1"], obs["parsed2"]) for sh in p['shapes'] for st in sh['stmts']
+                   for t in st['types'] + [c.get('ty', '') for c in st['comments'] if 'example' not in c])
+        return custom and refs
+    if obs.get("kind") == "dangling_reference":
+        return obs["cfg"]["shapes_ns"] != SHAPES_NS_DEFAULT and obs["ref"].startswith(SHAPES_NS_DEFAULT)
+    return False
+
+
+@replayer("custom_shapes_ns_references")
+def _r_custom_ns(f):
+    import common
+    from shexer.shaper import Shaper
+    nt = "".join(l + " .\n" for l in [_e('a') + " " + _T + " " + _e('C'), _e('b') + " " + _T + " " + _e('D'), _e('a') + " " + _e('p') + " " + _e('b')])
+    out = Shaper(raw_graph=nt, all_classes_mode=True, shapes_namespace="http://custom.org/shapes/").shex_graph(string_output=True)
+    return "@<http://weso.es/shapes/D>" in out
+
+
+# ------------------------------------------------------------------ C13: decimals = 0
+@trigger("decimals_zero_truncates")
+def _t_dec0(f, obs):
+    if obs.get("kind") != "ratio_text" or obs["decimals"] != 0:
+        return False
+    from fractions import Fraction
+    import math
+    return Fraction(obs["ratio"]) == math.floor(Fraction(100 * obs["n"], obs["N"]))
+
+
+@replayer("decimals_zero_truncates")
+def _r_dec0(f):
+    import common
+    from shexer.shaper import Shaper
+    nt = "".join(l + " .\n" for l in [_e('a') + " " + _T + " " + _e('C'), _e('b') + " " + _T + " " + _e('C'), _e('c') + " " + _T + " " + _e('C'),
+                                       _e('a') + " " + _e('p') + ' "1"', _e('b') + " " + _e('p') + ' "1"'])
+    out = Shaper(raw_graph=nt, all_classes_mode=True, decimals=0).shex_graph(string_output=True)
+    return "66 %" in out
